@@ -55,7 +55,7 @@ var sinkRe = compileReMust(`^(fmt\.(Errorf|Fprintf|Fprint|Fprintln|Printf|Print|
 var declassRe = compileReMust(`(\.EncryptMessage|\.EncryptData|\.DecryptMessage|\.DecryptData|\.GetChecksumHash|\.VerifyChecksum|\.VerifyIntegrity|common\.GetHash|common\.GetIntegrityHash|common\.GetChecksumHash|rfc8009\.GetIntegityHash|rfc4757\.HMAC|rfc4757\.Checksum|crypto\.GetEncryptedData|crypto\.DecryptMessage|crypto\.DecryptEncPart|hash\.Hash\.Sum|crypto/hmac\.New|crypto/hmac\.Equal|bytes\.Equal|crypto/subtle\.\w+|\.Marshal|messages\.NewTicket)$`)
 
 // library calls through which a tainted operand taints the result
-var propRe = compileReMust(`^(encoding/hex\.EncodeToString|encoding/hex\.Dump|encoding/base64\.\(\*Encoding\)\.EncodeToString|fmt\.Sprintf|fmt\.Sprint|fmt\.Sprintln|strings\.\w+|bytes\.\w+|bytes\.\(\*Buffer\)\.\w+|string|append|copy|bytes\.NewBuffer|bytes\.NewReader|strconv\.Quote)$`)
+var propRe = compileReMust(`^(encoding/hex\.EncodeToString|encoding/hex\.Dump|encoding/base64\.\(\*Encoding\)\.EncodeToString|fmt\.Sprintf|fmt\.Sprint|fmt\.Sprintln|strings\.\w+|bytes\.\w+|bytes\.\(\*Buffer\)\.\w+|string|append|copy|bytes\.NewBuffer|bytes\.NewReader|strconv\.Quote|.*\.(StringToKey|StringToKeyIter|StringToPBKDF2|DeriveKey|DeriveRandom|RandomToKey|KDF_HMAC_SHA2|Nfold|DES3RandomToKey|DES3StringToKey)|.*pbkdf2\.Key(64)?)$`)
 
 func compileReMust(p string) *regexpT { return &regexpT{compileRe(p)} }
 
